@@ -15,9 +15,9 @@ var (
 // The main difference between io.SectionReader and offsetReadSeeker is that
 // NewOffsetReadSeeker does not require the user to know the number of readable bytes.
 //
-// It also partially implements Seek, where the implementation panics if io.SeekEnd is passed.
-// This is because, offsetReadSeeker does not know the end of the file therefore cannot seek relative
-// to it.
+// It also partially implements Seek, where the implementation returns an error if io.SeekEnd is
+// passed. This is because, offsetReadSeeker does not know the end of the file therefore cannot seek
+// relative to it.
 type offsetReadSeeker struct {
 	r    io.ReaderAt
 	base int64
@@ -34,7 +34,7 @@ type ReadSeekerAt interface {
 
 // NewOffsetReadSeeker returns an ReadSeekerAt that reads from r
 // starting offset offset off and stops with io.EOF when r reaches its end.
-// The Seek function will panic if whence io.SeekEnd is passed.
+// The Seek function returns an error if whence io.SeekEnd is passed.
 func NewOffsetReadSeeker(r io.ReaderAt, off int64) (ReadSeekerAt, error) {
 	if or, ok := r.(*offsetReadSeeker); ok {
 		oldBase := or.base
@@ -111,7 +111,9 @@ func (o *offsetReadSeeker) Seek(offset int64, whence int) (int64, error) {
 			o.off = off
 		}
 	case io.SeekEnd:
-		panic("unsupported whence: SeekEnd")
+		return 0, errors.New("unsupported whence: io.SeekEnd")
+	default:
+		return 0, errors.New("unsupported whence")
 	}
 	return o.Position(), nil
 }
